@@ -127,6 +127,12 @@ func runTasks(tasks []C19Task, s *simrt.Sched, only int) *c19Run {
 		if ran == nil {
 			return
 		}
+		if ran.Child() && reason != "call-end" {
+			// steps of goroutines the library started (there may be thousands per call): what they
+			// change is seen at the next step of a caller task; the no-synchronisation clause
+			// cannot speak about them anyway (being started is a synchronisation operation)
+			return
+		}
 		g := simrt.GlobalHashes()
 		for i := range g {
 			if i >= len(lastG) || g[i] == lastG[i] {
